@@ -3263,8 +3263,9 @@ let cv_new width =
 
 let cv_with_capacity c capa width =
   if width_ok width
-  then bind (mul0 c capa width) (fun _ -> Ok (Some { cv_chunks = bv_empty;
-         cv_len = N0; cv_width = width }))
+  then bind (mul0 c capa width) (fun n0 ->
+         bind (words_for c n0) (fun _ -> Ok (Some { cv_chunks = bv_empty;
+           cv_len = N0; cv_width = width })))
   else Ok None
 
 (** val fits : cfg -> n -> n -> bool res **)
